@@ -69,19 +69,19 @@ Definition lock_key (s : state) (r : req) : option (str * str) :=
   match r with
   | RUploadMedia b n _ _ _ => Some (b, n)
   | RResumablePut id crange data => resumable_target s id crange data
-  | RUploadMultipart b m _ _ => Some (b, um_name m)
+  | RUploadMultipart b m _ _ => match um_name m with [] => None | _ => Some (b, um_name m) end   (* no name: 400 before the lock *)
   | RDelete b n _ => Some (b, n)
   | RPatch b n _ _ => Some (b, n)
   | RCompose b dst _ _ _ _ =>
       match split (dst ++ s_compose) s_compose with
-      | [d; _] => Some (b, d)
+      | [d; _] => match d with [] => None | _ => Some (b, d) end       (* no destination name: 400 before the lock *)
       | _ => None
       end
   | RCopy b1 n1 b2 n2 =>
       if contains (n1 ++ s_rewrite_b ++ b2 ++ s_o ++ n2) s_compose then None else
       match split (n1 ++ s_rewrite_b ++ b2 ++ s_o ++ n2) s_rewrite_b with
       | [_; rest] => match split2 rest s_o with
-                     | [b2'; f2] => Some (b2', f2)
+                     | [b2'; f2] => match f2 with [] => None | _ => Some (b2', f2) end   (* likewise *)
                      | _ => None
                      end
       | _ => None
